@@ -186,6 +186,9 @@ Definition fee_handler (s : state) (payer : acct) (fee : name * Z) : res state :
     do s2 <- bank_send s1 MODULE FEECOL d tax;
     bank_burn s2 d (amt - tax).
 
+(** one SwapToNative event of an EVM receipt: (contract, holder whose ERC20 the contract burned, receiver, amount) *)
+Definition hook_ev := (Z * acct * acct * Z)%type.
+
 (** ** messages *)
 Inductive msg :=
 | Issue (owner : acct) (sym minu : name) (nm scale initial max : Z) (mintable : bool)
@@ -200,7 +203,8 @@ Inductive msg :=
 | SetParams (auth : acct) (tax ratio base : Z) (denom : name) (enable beacon : bool)
 | EvmMode (m : Z)
 | HookToNative (c : Z) (from to : acct) (amt : Z)
-| UpgradeErc20 (auth : acct) (impl : Z).          (* impl < 0: not a hex address *)
+| UpgradeErc20 (auth : acct) (impl : Z)           (* impl < 0: not a hex address *)
+| HookMulti (evs : list hook_ev).                 (* ONE EVM transaction whose receipt carries several SwapToNative events *)
 
 (** ValidateBasic of each message *)
 Definition effective_max (max initial : Z) (mintable : bool) : Z :=
@@ -228,6 +232,7 @@ Definition validate_basic (m : msg) : bool :=
   | EvmMode _ => true
   | HookToNative _ from _ amt => valid_addr from && (0 <=? amt)
   | UpgradeErc20 auth impl => valid_addr auth && (0 <=? impl)
+  | HookMulti evs => forallb (fun e : hook_ev => let '(_, from, _, amt) := e in valid_addr from && (0 <=? amt)) evs
   end.
 
 (** msgServer.IssueToken + Keeper.IssueToken + AddToken/assertTokenValid *)
@@ -419,6 +424,14 @@ Definition do_hook (s : state) c from to amt : res state :=
         end
     end.
 
+(** erc20Hook.PostTxProcessing over a receipt with several SwapToNative events: the loop over the logs
+    processes every one of them, in order; any failing event fails the whole EVM transaction *)
+Fixpoint do_hook_multi (s : state) (evs : list hook_ev) : res state :=
+  match evs with
+  | [] => ROk s
+  | (c, from, to, amt) :: r => do s1 <- do_hook s c from to amt; do_hook_multi s1 r
+  end.
+
 (** msgServer.UpgradeERC20 + Keeper.UpgradeERC20: the beacon's upgradeTo is called; balances held by
     the proxies are not touched (EVM double: mode 8 = the call reverts) *)
 Definition do_upgrade (s : state) auth : res state :=
@@ -443,6 +456,7 @@ Definition handle (s : state) (m : msg) : res state :=
   | EvmMode m => ROk (upd_mode s m)
   | HookToNative c from to amt => do_hook s c from to amt
   | UpgradeErc20 auth _ => do_upgrade s auth
+  | HookMulti evs => do_hook_multi s evs
   end.
 
 (** one message = one transaction: ValidateBasic, then the handler; a failure changes nothing *)
